@@ -148,7 +148,19 @@ def run_case(case):
                 continue
             await idle()
             obs.append([split_ids(f.text(), expected) for f in fakes])
-        # cancel what is still pending so that the loop can close
+        # flush: the environment now completes every outstanding operation (oldest first) until nothing is pending and
+        # the loop is idle - everything that was routed must then have left, whole and in order (C19_complete)
+        final = None
+        if case.get("flush", True):
+            for _ in range(40 + 8 * nxt):
+                if not any(f.pending for f in fakes):
+                    break
+                for f in fakes:
+                    release(f)
+                await idle()
+            await idle()
+            final = [split_ids(f.text(), expected) for f in fakes] if not any(f.pending for f in fakes) else None
+        case["_final"] = final
         for t in asyncio.all_tasks(loop):
             if t is not asyncio.current_task(loop):
                 t.cancel()
@@ -230,6 +242,15 @@ def run_impl(case, outcome):
                                                         " ".join("%d %s" % (len(o), " ".join(str(x) for x in o)) for o in outs)),
                         "True" if not garbled else "garbled-output", "oracle",
                         "the output is whole messages only, in routing order, whatever the completion order"))
+        final = case.get("_final")
+        if final is not None:
+            fin = final[ci]
+            qs.append(Query("spec send %d %s 1 %s True" % (len(routed), " ".join(str(x) for x in routed),
+                                                           "%d %s" % (len(fin), " ".join(str(x) for x in fin)) if fin is not None else "0"),
+                            "True" if fin is not None else "garbled-output", "oracle",
+                            "after every outstanding write/flush/drain completed and the loop went idle, connection %d has sent %s of the routed messages %s"
+                            % (ci, fin, routed)))
+    case.pop("_final", None)
     return qs
 
 
